@@ -193,7 +193,36 @@ def b_stubs():
         s[n] = uf_stub(n)
     return s
 
-@obligation('C10.amu2L_B_EWadd.sm_limit', fns=[(B2, 'amu2L_B_EWadd')])
+EWADD_REPLAY = r'''
+#include "@REPO@/src/THDM/gm2_2loop_B.cpp"
+#include <cstdio>
+#include <cstdlib>
+#include <cmath>
+int main(int argc, char** argv) {
+   gm2calc::thdm::THDM_B_parameters p;
+   p.mw = std::atof(argv[1]); p.mz = std::atof(argv[2]); p.alpha_em = std::atof(argv[3]); p.mm = std::atof(argv[4]);
+   p.mh << std::atof(argv[5]), 400.0; p.mA = 420; p.mHp = 440; p.mhSM = 125.09; p.tb = 3; p.lambda5 = 0.5; p.lambda67 = 0.2;
+   const double cba = std::atof(argv[6]), zl = std::atof(argv[7]);
+   auto f = [&](double c, double z) { p.cos_beta_minus_alpha = c; p.zetal = z; return gm2calc::thdm::amu2L_B_EWadd(p); };
+   const double f00 = f(0, zl), f0 = f(cba, 0), fcz = f(cba, zl), f11 = f(1, 1);
+   const bool bad = f00 != 0 || f0 != 0 || std::fabs(fcz - f11 * cba * zl) > 1e-9 * std::fabs(fcz);
+   std::printf("mw=%s mz=%s alpha=%s mm=%s mh=%s: EWadd(cba=0,zl=%s) = %.10g, EWadd(cba=%s,zl=0) = %.10g, EWadd(cba,zl) = %.10g vs EWadd(1,1)*cba*zl = %.10g\n",
+               argv[1], argv[2], argv[3], argv[4], argv[5], argv[7], f00, argv[6], f0, fcz, f11 * cba * zl);
+   return bad ? 1 : 0;
+}
+'''
+
+def replay_ewadd(model, wd):
+    from gm2v import native
+    import subprocess
+    f = model.get('_float', {}) if model else {}
+    g = lambda k, d: repr(float(f.get(k, d)))
+    exe = native.build_program(wd, EWADD_REPLAY, ['src/gm2_ffunctions.cpp', 'src/gm2_dilog.cpp', 'src/gm2_numerics.cpp'])
+    r = subprocess.run([exe, g('p.mw', 80.379), g('p.mz', 91.1876), g('p.alpha_em', 1 / 137.0), g('p.mm', 0.1056), g('p.mh(0)', 125.0), g('cba', 0.1), g('zl', -3.0)],
+                       capture_output=True, text=True, timeout=120)
+    return r.returncode == 1, r.stdout.strip()[-1500:]
+
+@obligation('C10.amu2L_B_EWadd.sm_limit', fns=[(B2, 'amu2L_B_EWadd')], replay=replay_ewadd)
 def _(ctx):
     """ensures: amu2L_B_EWadd(pars) == K(pars) * cos(beta-alpha) * zeta_l with K independent of both (hence 0 for cos(beta-alpha) = 0)"""
     it = Interp(ctx.w, mode='sym', stubs=b_stubs(), div_sides=False)
@@ -208,15 +237,18 @@ def _(ctx):
         ps = it.run_paths(lambda: it.call('amu2L_B_EWadd', [q], file=B2))
         outs.append(ps)
     ctx.merge_rules(it)
+    # candidate points for refuting a goal the solver leaves unknown (standard interpretation of the loop functions, numeric evaluation)
+    pins = [{z3.Real(k_): v_ for k_, v_ in d_.items()} for d_ in [{'p.mw': Fr(80379, 1000), 'p.mz': Fr(911876, 10000), 'p.alpha_em': Fr(1, 137), 'p.mm': Fr(1056, 10000), 'p.mh(0)': Fr(mh), 'zl': Fr(-3), 'cba': Fr(1, 10),
+             'p.mh(1)': Fr(400), 'p.mA': Fr(420), 'p.mHp': Fr(440), 'p.mhSM': Fr(12509, 100), 'p.tb': Fr(3), 'p.lambda5': Fr(1, 2), 'p.lambda67': Fr(1, 5)} for mh in (125, 95, 200)]]
     for (sym, r, _) in outs[0]:
-        ctx.prove('zero_at_cba0.path', pre + sym.pc + sym.axioms, z3real(r) == 0, check_vacuity=False)
+        ctx.prove('zero_at_cba0.path', pre + sym.pc + sym.axioms, z3real(r) == 0, check_vacuity=False, pins=pins)
     for (sym, r, _) in outs[1]:
-        ctx.prove('zero_at_zetal0.path', pre + sym.pc + sym.axioms, z3real(r) == 0, check_vacuity=False)
+        ctx.prove('zero_at_zetal0.path', pre + sym.pc + sym.axioms, z3real(r) == 0, check_vacuity=False, pins=pins)
     # proportionality: f(cba, zl) == f(1,1) * cba * zl on matching paths
     for (s2, r2, _) in outs[2]:
         for (s3, r3, _) in outs[3]:
             if str(s2.pc) == str(s3.pc):
-                ctx.prove('proportional', pre + s2.pc + s2.axioms + s3.axioms, z3real(r2) == z3real(r3) * z3.Real('cba') * z3.Real('zl'), check_vacuity=False, tactics=('nlsat', 'default'))
+                ctx.prove('proportional', pre + s2.pc + s2.axioms + s3.axioms, z3real(r2) == z3real(r3) * z3.Real('cba') * z3.Real('zl'), check_vacuity=False, tactics=('nlsat', 'default'), pins=pins)
 
 @obligation('C10.amu2L_B_Yuk.sm_limit', fns=[(B2, 'amu2L_B_Yuk')])
 def _(ctx):
